@@ -245,7 +245,27 @@ def post_cost(ev, args, kwargs, ret, exc, pre_, depth):
                         judged = 0          # beyond the underflow assumption high/kT >= 746 + gamma
                 else:
                     bad = ncore
-            pairs.append({'a': a, 'b': b, 'clos': type(clo).__name__, 'flag': flag, 'pot': potk, 'ncore': ncore, 'bad': bad})
+            # C09 at every evaluation: outside the core the output is the closure's relation of (GammaIn, wired potential);
+            # the relation is the TERM exported by TLC from ClosureDefs.tla (file named by VERIF_CLOSURE_TERMS)
+            relbad = -1
+            try:
+                from harness import prism_eval, termeval
+                terms = prism_eval.load_terms()
+                kind = prism_eval.CANON.get(type(clo).__name__)
+                if terms is not None and kind is not None and val is not None and exc is None and getattr(clo, 'potential', None) is not None:
+                    gin = np.asarray(p.GammaIn[a, b], dtype=float)
+                    u = np.asarray(clo.potential, dtype=float)
+                    v = np.asarray(val, dtype=float)
+                    out = (r > sigma) if flag else np.ones(len(r), dtype=bool)
+                    out &= ~((np.abs(r - sigma) < 1e-6) & (r != sigma))
+                    with np.errstate(all='ignore'):
+                        want = np.asarray(termeval.ev(terms['rel'][kind], {'gamma': gin, 'u': u}), dtype=float) * np.ones(len(r))
+                        scale = np.abs(want) + 1.0 + np.abs(gin) + np.abs(want + 1.0 + gin)
+                        ok = np.isfinite(want)
+                        relbad = int(np.sum(out & ok & ~(np.abs(v - want) <= 1e-11 * scale)))
+            except Exception:
+                relbad = -1
+            pairs.append({'a': a, 'b': b, 'clos': type(clo).__name__, 'flag': flag, 'pot': potk, 'ncore': ncore, 'bad': bad, 'relbad': relbad})
     return {'prism': ob.oid(p), 'obj': ob.oid(p), 'pairs': pairs, 'judged': judged}
 
 
